@@ -46,6 +46,12 @@ EXTERNAL_FAILURE = {
     "ascon128_siv_decrypt": {-1},
     "ascon128a_siv_decrypt": {-1},
 }
+# system / stdio primitives the tools' own I/O wrappers are built on: value that signals an error.  Their
+# results need not be stored (D1 does not apply), but a wrapper that sees the error value must report failure
+# itself (D2) unless it retries the same call.
+IO_PRIMITIVES = {"read": {-1}, "write": {-1}, "open": {-1}}
+# (asconsum's fopen / ferror results flow into error *counters*; the status web does not interpret counters,
+#  so those two are not modelled: undecided rather than alarmed)
 ERROR_REPORTERS = {"perror", "fprintf", "fputs", "fwrite"}
 NOT_STATUS = {"safe_file_close", "safe_file_delete"}
 
@@ -57,6 +63,9 @@ def run(rep, tier):
         "return statements; each call site's test is evaluated on those values to find the successor taken "
         "on failure.")
     rep.undecided = "file round trip, detection of every modification, behaviour under real I/O faults and crashes"
+    rep.rule("C19.D1", "the result of every error-signalling call is tested, not discarded")
+    rep.rule("C19.D2", "when a call fails, the function reports failure (wrappers: their own failure value; main: non-zero exit)")
+    rep.rule("C19.D3", "a failure after the output file was opened passes through the deletion of that file")
     build = repo.configure(repo.DEFAULT)
     for group in ("asconcrypt", "asconsum"):
         lr = repo.lower(build, group=group, level="O0")
@@ -80,6 +89,7 @@ def run(rep, tier):
 def failure_values(m):
     """callee name -> set of failure return constants"""
     out = dict(EXTERNAL_FAILURE)
+    out.update(IO_PRIMITIVES)
     for f in m.defined():
         if f.d["ret"] == "void" or f.name == "main":
             continue
@@ -217,6 +227,8 @@ def explore(rep, m, f, fail, group):
         cal = c.callee
         if cal not in fail or cal in NOT_STATUS:
             continue
+        if (not c.id or not uses.get(c.id)) and cal in IO_PRIMITIVES:
+            continue
         if not c.id or not uses.get(c.id):
             rep.violation("C19.D1", "%s:%s:discarded" % (f.name, cal), c.where(),
                           "%s ignores the result of %s, which signals failure by returning %s" % (
@@ -281,6 +293,8 @@ def explore(rep, m, f, fail, group):
                 if i.callee in ("exit", "abort", "_exit"):
                     forked = True       # path ends
                     break
+                if i.id in checked and failed == i.id and i.callee in IO_PRIMITIVES:
+                    failed, fval = None, None      # the same primitive is attempted again (EINTR / short transfer loop)
                 if i.id in checked and failed is None:
                     # single-failure scenarios: this call fails with each of its failure values
                     for fv in sorted(fail[i.callee]):
@@ -300,6 +314,9 @@ def explore(rep, m, f, fail, group):
             if failed is not None:
                 c = checked[failed]
                 bad = (rv is None) or (rv == 0 if is_main else rv != 0)
+                own = fail.get(f.name)
+                if c.callee in IO_PRIMITIVES and not is_main and own:
+                    bad = rv is None or rv not in own      # the wrapper's own failure value(s)
                 key = ("D2", failed)
                 if bad and key not in reported:
                     reported.add(key)
